@@ -67,6 +67,10 @@ func (e *Engine) symValue(t types.Type, name string, depth, mode int) Value {
 		n := countTop(t, g.impls)
 		g.pick = g.choose(n + 1)
 	}
+	if mode&16 != 0 {
+		// the dynamic type the first `any` position gets is forked (else the rotation always starts with a string)
+		g.anyRR = g.choose(5)
+	}
 	return g.gen(t, depth, true)
 }
 
